@@ -81,7 +81,7 @@ PROPS['C06'] = {
     'quick_configs': ['default'],
     'thorough_configs': ALL,
     'controls': [],
-    'floors': {'default': {'V0': 50, 'V1': 10, 'V2': 8, 'V3': 1, 'V4': 10, 'V5': 6, 'FT1': 1, 'SB1': 1, 'SB2': 1}},
+    'floors': {'default': {'V0': 100, 'V1': 10, 'V2': 8, 'V3': 1, 'V4': 10, 'V5': 6, 'FT1': 1, 'SB1': 1, 'SB2': 1}},
     'rule_text': 'one obligation per device write of format_volume (dominated by the Ok edge of format_boot_sector and the '
                  'accepting edge of the strict self-validation: V1), per error construction in the layout code (only '
                  'InvalidInput; the validation failure is re-labelled InvalidInput: V2), the boot-sector copies (one '
@@ -100,14 +100,18 @@ PROPS['C06'] = {
                    'the start of the root directory; 64-bit to 32-bit narrowing happens only behind a proved range or a '
                    'reasoned entry; FatType::from_clusters implements the specified thresholds exactly (decision table '
                    'over all u32). Panic sites outside the sizing arithmetic are discharged by interval analysis under '
-                   'the validated-BPB and option-setter invariants; inside the sizing arithmetic the division sites are '
-                   'analysed too (a zero divisor panics in every build). NOT decided: that the sizing heuristics find a '
-                   'satisfiable layout for every size from 42 sectors to 2^32-1 (numeric), and absence of overflow inside '
-                   'them (those sites are counted in the evidence as not analysed).',
+                   'the validated-BPB and option-setter invariants (bytes_per_sector a power of two in 512..32768, fats in '
+                   '1..2, from the setters\' own asserts). The sizing functions themselves (determine_*, try_fs_layout, '
+                   'format_bpb, estimate_fat_type) are analysed in full: all but five of their sites are proved by '
+                   'intervals, three rest on a rejecting comparison that is re-checked in the code, two are stated '
+                   'beliefs (the numeric bound fats*sectors_per_fat <= data sectors; power-of-two-ness of the clamped '
+                   'cluster size). NOT decided: that the heuristics find a satisfiable layout for every size from 42 '
+                   'sectors to 2^32-1, and the overflow sites of the BPB accessors that format_bpb calls on the not yet '
+                   'validated BPB (counted in the evidence as not analysed).',
     'claim': 'Validate-before-write, error kinds, boot-sector copies, initialisation steps and values, narrowing casts '
              'and the FAT-width table hold on every path for every option set; the sizing arithmetic itself (success for '
              'every size, no overflow inside the heuristics) is not decided.',
-    'level_note': 'V0 analyses only the division sites of the 23 functions reachable from format_boot_sector (the rest is reported as V0.not-analysed)',
+    'level_note': 'V0.not-analysed counts the overflow sites of BPB / FatType methods called from format_bpb before validation',
     'technique': 'static analysis: dominance / must-pass-through / dependence on MIR + interval abstract interpretation + '
                  'decision table',
     'assumptions': COMMON_ASSUMPTIONS + ['FormatVolumeOptions values are built through the public setters (their asserts '
